@@ -1005,7 +1005,8 @@ def drivers(sim):
       name, idx, lo, w, static = r
       if not static: unresolved += 1
       v = inst.vars[name]
-      elems = [idx] if (static and len(idx) == len(v.dims)) else [None]
+      # a static (possibly partial: sub-array) index prefix selects the elements below it; None = any element
+      elems = [tuple(idx)] if (static and len(idx) <= len(v.dims)) else [None]
       for el in elems:
         drv.setdefault((name, el), []).append((mask(w) << lo if static else mask(twidth(v.type)), did, static))
     for pi, (kind, payload) in enumerate(inst.procs):
@@ -1043,7 +1044,9 @@ def drivers(sim):
           a, b = flat[i], flat[j]
           if a[2] == b[2]: continue
           if not (a[3] and b[3]): continue
-          if a[0] is not None and b[0] is not None and a[0] != b[0]: continue
+          if a[0] is not None and b[0] is not None:
+            k_ = min(len(a[0]), len(b[0]))
+            if tuple(a[0][:k_]) != tuple(b[0][:k_]): continue            # disjoint elements / sub-arrays
           if a[1] & b[1]:
             key = tuple(sorted((a[2], b[2])))
             if key not in seen_pairs:
